@@ -165,7 +165,33 @@ func workDir() (string, error) {
 	return d, nil
 }
 
+// nativeRun runs the cases natively. A case that blocks forever is reported with End "hang" by the replay
+// driver, which then stops; the cases after it are run in a fresh process.
 func nativeRun(cases []nativeCase, race bool) ([]nativeResult, string, error) {
+	var all []nativeResult
+	var outs string
+	for len(all) < len(cases) {
+		res, out, err := nativeRunOnce(cases[len(all):], race)
+		outs += out
+		if err != nil {
+			return nil, outs, err
+		}
+		n := 0
+		for _, r := range res {
+			if r.End == "notrun" {
+				break
+			}
+			n++
+		}
+		if n == 0 {
+			return nil, outs, fmt.Errorf("native replay made no progress")
+		}
+		all = append(all, res[:n]...)
+	}
+	return all, outs, nil
+}
+
+func nativeRunOnce(cases []nativeCase, race bool) ([]nativeResult, string, error) {
 	if len(cases) == 0 {
 		return nil, "", nil
 	}
@@ -348,6 +374,9 @@ func cmdCheck(id, tier string) int {
 			cands = append(cands, candidate{It: r.It, V: v, idx: len(cands)})
 		}
 		for _, s := range r.Res.Samples {
+			if s.End == "deadlock" || s.End == "blocked" {
+				continue // nothing to compare, and the native run would not return
+			}
 			samples = append(samples, sampleRef{It: r.It, S: s})
 		}
 		scripts = append(scripts, r.Res.Scripts...)
@@ -526,6 +555,10 @@ func cmdCheck(id, tier string) int {
 			}
 		}
 		if strings.HasPrefix(c.V.Msg, "uncaught panic") && c.Native.End == "panic" {
+			confirmed = true
+		}
+		if strings.HasPrefix(c.V.Msg, "deadlock:") && c.Native.End == "hang" {
+			// a goroutine that takes a lock it already holds: the native run never returned
 			confirmed = true
 		}
 		if strings.HasPrefix(c.V.Msg, "frame[") {
@@ -718,7 +751,7 @@ func cmdReplay(path string) int {
 		return 0
 	}
 	n := 1
-	if strings.Contains(rf.Msg, "block forever") || strings.Contains(rf.Msg, "deadlock") {
+	if strings.Contains(rf.Msg, "block forever") || (strings.Contains(rf.Msg, "deadlock") && !strings.HasPrefix(rf.Msg, "deadlock:")) {
 		n = 400
 	}
 	var cases []nativeCase
@@ -748,6 +781,10 @@ func cmdReplay(path string) int {
 	}
 	if strings.HasPrefix(rf.Msg, "uncaught panic") && r.End == "panic" {
 		fmt.Printf("REPRODUCED property=%s: %s\n", rf.Property, rf.Msg)
+		return 1
+	}
+	if strings.HasPrefix(rf.Msg, "deadlock:") && r.End == "hang" {
+		fmt.Printf("REPRODUCED property=%s: %s (the native run did not return)\n", rf.Property, rf.Msg)
 		return 1
 	}
 	fmt.Println("not reproduced")
